@@ -1,12 +1,209 @@
 -------------------------- MODULE Known_RankSelect --------------------------
 (* Named deviation actions for the recorded known findings of property C04        *)
 (* (see /verif/known_findings.json).  A deviation is enabled only for the listed  *)
-(* subject and only under its semantic trigger; the trace specification records   *)
-(* the ids taken on an accepted path in the variable kf.                          *)
+(* subject (family / variant / route of the reset event), the listed operation    *)
+(* and its semantic trigger, and only when the strict contract does NOT accept    *)
+(* the event (so a repaired tree never takes a deviation).  The action describes  *)
+(* the recorded wrong behaviour as exactly as it can be stated from the bit       *)
+(* sequence; any other wrong answer stays a VIOLATION.                            *)
 EXTENDS RankSelect, TLC
 
-KnownIds == {}
+KnownIds == {"C04-KF1", "C04-KF2", "C04-KF3", "C04-KF4", "C04-KF5", "C04-KF6", "C04-KF7", "C04-KF8"}
 
-DevApplies(id, e, subj) == FALSE
-KnownDeviation(id, e, subj) == FALSE
+Seq0(n) == [j \in 1..n |-> j - 1]
+
+(* ---------------------------------------------------------------------------------------- *)
+(* C04-KF1  RankSelectInterleaved256 built WITHOUT a select cache: select1(k) answers the      *)
+(* position of one number k+1 (select1_within_line converts the rank to 1-based twice), and    *)
+(* refuses k when one k is the last one of its 256-bit line.                                   *)
+NoCacheVariants == {"nosel", "opt_nosel"}
+KF1Outcome(k) ==
+    IF k >= Ones THEN Refused
+    ELSE IF k + 1 < Ones /\ (vec.p1[k + 2] \div 256) = (vec.p1[k + 1] \div 256) THEN vec.p1[k + 2]
+    ELSE Refused
+KF1Apis == {"select1", "select1_hardware_accelerated", "select1_adaptive", "select1_optimized"}
+G1(e, subj) ==
+    /\ subj.fam = "il256" /\ subj.variant \in NoCacheVariants
+    /\ Ones > 0
+    /\ \/ /\ e.op = "select" /\ e.which = "select1" /\ e.api \in KF1Apis
+          /\ ~ (IF e.all THEN SelectAllOK(e.which, e.r) ELSE SelectAtOK(e.which, e.at, e.r))
+       \/ /\ e.op = "select_batch" /\ e.which = "select1"
+          /\ ~ SelectBatchOK(e.which, e.at, e.ok, e.r)
+KF1(e, subj) ==
+    /\ G1(e, subj)
+    /\ \/ /\ e.op = "select" /\ e.all
+          /\ Len(e.r) = N + 1 /\ \A k \in 0..N : e.r[k + 1] = KF1Outcome(k)
+       \/ /\ e.op = "select" /\ ~e.all
+          /\ Len(e.r) = Len(e.at) /\ \A j \in 1..Len(e.at) : e.r[j] = KF1Outcome(e.at[j])
+       \/ /\ e.op = "select_batch"
+          \* the bulk call fails as a whole as soon as one k is refused
+          /\ e.ok = (\A j \in 1..Len(e.at) : KF1Outcome(e.at[j]) # Refused)
+          /\ e.ok => /\ Len(e.r) = Len(e.at)
+                     /\ \A j \in 1..Len(e.at) : e.r[j] = KF1Outcome(e.at[j])
+    /\ UNCHANGED vec
+
+(* ---------------------------------------------------------------------------------------- *)
+(* C04-KF2  BitVector::resize to a shorter length keeps the 64-bit blocks above the new        *)
+(* length; RankSelectSE256 / SE512 / Simple count every block of their last 256/512-bit line,  *)
+(* so the stale one bits are counted: count_ones too large, select1 answers positions beyond   *)
+(* the vector for k >= ones, select0 refuses valid k.  rank and get stay exact.                *)
+LineWords(fam) == IF fam = "se512" THEN 8 ELSE 4
+StaleTrigger(fam) == N > 0 /\ ((N + 63) \div 64) % LineWords(fam) # 0
+G2(e, subj) ==
+    /\ subj.route = "shrunk" /\ subj.fam \in {"se256", "se512", "simple"}
+    /\ StaleTrigger(subj.fam)
+    /\ \/ e.op = "counts" /\ ~ CountsOK(e.len, e.ones, e.zeros)
+       \/ e.op = "select" /\ e.all /\ ~ SelectAllOK(e.which, e.r)
+       \* the stale ones can outnumber the zeros: count_zeros = len - ones wraps and select0 indexes past its tables
+       \/ /\ e.op = "panic" /\ e.in = "select0" /\ e.kind = "oob"
+          /\ Zeros < 64 * (LineWords(subj.fam) - 1)
+KF2(e, subj) ==
+    /\ G2(e, subj)
+    /\ \/ e.op = "panic"
+       \/ /\ e.op = "counts"
+          /\ e.len = N
+          /\ e.ones > Ones /\ e.ones <= Ones + 64 * (LineWords(subj.fam) - 1)
+          /\ e.zeros = (IF e.ones <= N THEN N - e.ones ELSE Huge)
+       \/ /\ e.op = "select" /\ e.which = "select1"
+          /\ Len(e.r) = N + 1
+          /\ \A k \in 0..N : IF k < Ones THEN e.r[k + 1] = vec.p1[k + 1]
+                             ELSE e.r[k + 1] = Refused \/ e.r[k + 1] >= N
+       \/ /\ e.op = "select" /\ e.which = "select0"
+          /\ Len(e.r) = N + 1
+          /\ \A k \in 0..N : IF k < Zeros THEN e.r[k + 1] \in {vec.p0[k + 1], Refused}
+                             ELSE e.r[k + 1] = Refused \/ e.r[k + 1] >= N
+    /\ UNCHANGED vec
+
+(* ---------------------------------------------------------------------------------------- *)
+(* C04-KF3  RankSelectMixedIL256: rank1/rank0 at p = len panics (index out of bounds) when     *)
+(* len is a positive multiple of 256 and the other dimension is not longer (no line for p).    *)
+G3(e, subj) ==
+    /\ subj.fam = "mixed"
+    /\ e.op = "panic" /\ e.in \in {"rank1", "rank0", "rank1_dim", "rank0_dim"} /\ e.kind = "oob"
+    /\ N > 0 /\ N % 256 = 0 /\ e.at = N
+KF3(e, subj) == G3(e, subj) /\ UNCHANGED vec
+
+(* ---------------------------------------------------------------------------------------- *)
+(* C04-KF4  bmi2_comprehensive::Bmi2BitOps::select1_ultra_fast(word, rank) with rank = 65      *)
+(* (k = 64, beyond any 64-bit word): the shift 1 << 64 wraps and the first one of the word is  *)
+(* returned instead of None.                                                                   *)
+G4(e, subj) ==
+    /\ subj.fam = "bmi2c"
+    /\ e.op = "wselect" /\ e.which = "select1" /\ e.api = "Bmi2BitOps::select1_ultra_fast(1-based)"
+    /\ ~ WordSelectOK(e.which, e.w, e.r)
+KF4(e, subj) ==
+    /\ G4(e, subj)
+    /\ Len(e.r) = 65
+    /\ \A k \in 0..63 : e.r[k + 1] = WSel1(e.w, k)
+    /\ WOnes(e.w) > 0 /\ e.r[65] = WSel1(e.w, 0)
+    /\ UNCHANGED vec
+
+(* ---------------------------------------------------------------------------------------- *)
+(* C04-KF5  bulk_select1_simd on a BMI2 host: PDEP is given the mask (1 << r) - 1 instead of   *)
+(* 1 << (r - 1), so the FIRST one of the word holding the k-th one is returned - except when   *)
+(* the k-th one is the 64th one of its word (the mask wraps to 0 and a scalar scan answers).   *)
+KF5Outcome(k) ==
+    IF k >= Ones THEN Refused
+    ELSE LET pos  == vec.p1[k + 1]
+             base == Rank1(64 * (pos \div 64))
+         IN  IF k - base = 63 THEN pos ELSE vec.p1[base + 1]
+G5(e, subj) ==
+    /\ subj.fam = "simd"
+    /\ \/ /\ e.op = "select" /\ e.which = "select1" /\ e.api = "bulk_select1_simd[1]"
+          /\ ~ (IF e.all THEN SelectAllOK(e.which, e.r) ELSE SelectAtOK(e.which, e.at, e.r))
+       \/ /\ e.op = "select_batch" /\ e.which = "select1" /\ e.api = "bulk_select1_simd"
+          /\ ~ SelectBatchOK(e.which, e.at, e.ok, e.r)
+KF5(e, subj) ==
+    /\ G5(e, subj)
+    /\ \/ /\ e.op = "select" /\ e.all
+          /\ Len(e.r) = N + 1 /\ \A k \in 0..N : e.r[k + 1] = KF5Outcome(k)
+       \/ /\ e.op = "select" /\ ~e.all
+          /\ Len(e.r) = Len(e.at) /\ \A j \in 1..Len(e.at) : e.r[j] = KF5Outcome(e.at[j])
+       \/ /\ e.op = "select_batch"
+          /\ e.ok = (\A j \in 1..Len(e.at) : e.at[j] < Ones)
+          /\ e.ok => /\ Len(e.r) = Len(e.at)
+                     /\ \A j \in 1..Len(e.at) : e.r[j] = KF5Outcome(e.at[j])
+    /\ UNCHANGED vec
+
+(* ---------------------------------------------------------------------------------------- *)
+(* C04-KF6  bmi2_acceleration::Bmi2BlockOps::select_bulk (also behind Bmi2Accelerator):        *)
+(* the block is located with binary_search(k + 1) over cumulative popcounts; when the k-th one *)
+(* is the last one of its word and the following word holds no one, equal cumulative counts    *)
+(* make the search land on an empty word and the call fails.                                   *)
+NWords == (N + 63) \div 64
+KF6Weak(k) == /\ k < Ones
+              /\ LET w == vec.p1[k + 1] \div 64 IN
+                    /\ Rank1(WHi(w)) = k + 1          \* last one of its word
+                    /\ w + 1 < NWords /\ WOnes(w + 1) = 0
+KF6Allowed(k) == IF KF6Weak(k) THEN {SelOutcome("select1", k), Refused} ELSE {SelOutcome("select1", k)}
+KF6Apis == {"Bmi2BlockOps::select_bulk[1]", "Bmi2BlockOps::select_bulk", "Bmi2Accelerator::select_bulk"}
+G6(e, subj) ==
+    /\ subj.fam = "bmi2a"
+    /\ \/ /\ e.op = "select" /\ e.which = "select1" /\ e.api \in KF6Apis
+          /\ ~ (IF e.all THEN SelectAllOK(e.which, e.r) ELSE SelectAtOK(e.which, e.at, e.r))
+       \/ /\ e.op = "select_batch" /\ e.which = "select1" /\ e.api \in KF6Apis
+          /\ ~ SelectBatchOK(e.which, e.at, e.ok, e.r)
+KF6(e, subj) ==
+    /\ G6(e, subj)
+    /\ \/ /\ e.op = "select" /\ e.all
+          /\ Len(e.r) = N + 1 /\ \A k \in 0..N : e.r[k + 1] \in KF6Allowed(k)
+       \/ /\ e.op = "select" /\ ~e.all
+          /\ Len(e.r) = Len(e.at) /\ \A j \in 1..Len(e.at) : e.r[j] \in KF6Allowed(e.at[j])
+       \/ /\ e.op = "select_batch"
+          \* all k valid: either answered exactly, or failed as a whole because of a weak k
+          /\ (\A j \in 1..Len(e.at) : e.at[j] < Ones)
+          /\ \/ e.ok /\ Len(e.r) = Len(e.at) /\ \A j \in 1..Len(e.at) : e.r[j] = vec.p1[e.at[j] + 1]
+             \/ ~e.ok /\ \E j \in 1..Len(e.at) : KF6Weak(e.at[j])
+    /\ UNCHANGED vec
+
+(* ---------------------------------------------------------------------------------------- *)
+(* C04-KF7  bulk_rank1_simd(words, positions): a position equal to 64 * words.len() (p = len   *)
+(* of a vector whose length is a multiple of 64) is answered 0 instead of the number of ones.  *)
+G7(e, subj) ==
+    /\ subj.fam = "simd"
+    /\ e.op = "rank" /\ e.which = "rank1" /\ e.api \in {"bulk_rank1_simd", "bulk_rank1_simd[1]"}
+    /\ N > 0 /\ N % 64 = 0 /\ Ones > 0
+    /\ ~ (IF e.all THEN RankAllOK(e.which, e.r) ELSE RankAtOK(e.which, e.at, e.r))
+KF7Outcome(p) == IF p = N THEN 0 ELSE Rank1(p)
+KF7(e, subj) ==
+    /\ G7(e, subj)
+    /\ \/ e.all  /\ Len(e.r) = N + 1 /\ \A p \in 0..N : e.r[p + 1] = KF7Outcome(p)
+       \/ ~e.all /\ Len(e.r) = Len(e.at) /\ \A j \in 1..Len(e.at) : e.r[j] = KF7Outcome(e.at[j])
+    /\ UNCHANGED vec
+
+(* ---------------------------------------------------------------------------------------- *)
+(* C04-KF8  bmi2_comprehensive::Bmi2BlockOps::bulk_rank1(words, positions) answers the rank    *)
+(* INSIDE the word holding the position (ones of the preceding words are not added), and 0 for *)
+(* a position at the end of the last word - while its sibling bulk_select1 is global.          *)
+G8(e, subj) ==
+    /\ subj.fam = "bmi2c"
+    /\ e.op = "rank" /\ e.which = "rank1" /\ e.api = "Bmi2BlockOps::bulk_rank1"
+    /\ ~ (IF e.all THEN RankAllOK(e.which, e.r) ELSE RankAtOK(e.which, e.at, e.r))
+KF8Outcome(p) == IF p \div 64 < NWords THEN WRank1(p \div 64, p % 64) ELSE 0
+KF8(e, subj) ==
+    /\ G8(e, subj)
+    /\ \/ e.all  /\ Len(e.r) = N + 1 /\ \A p \in 0..N : e.r[p + 1] = KF8Outcome(p)
+       \/ ~e.all /\ Len(e.r) = Len(e.at) /\ \A j \in 1..Len(e.at) : e.r[j] = KF8Outcome(e.at[j])
+    /\ UNCHANGED vec
+
+(* guard (state predicate) and action of each deviation.  In KF mode a deviation whose   *)
+(* guard holds REPLACES the contract action for that event.                               *)
+DevApplies(id, e, subj) ==
+    \/ id = "C04-KF1" /\ G1(e, subj)
+    \/ id = "C04-KF2" /\ G2(e, subj)
+    \/ id = "C04-KF3" /\ G3(e, subj)
+    \/ id = "C04-KF4" /\ G4(e, subj)
+    \/ id = "C04-KF5" /\ G5(e, subj)
+    \/ id = "C04-KF6" /\ G6(e, subj)
+    \/ id = "C04-KF7" /\ G7(e, subj)
+    \/ id = "C04-KF8" /\ G8(e, subj)
+KnownDeviation(id, e, subj) ==
+    \/ id = "C04-KF1" /\ KF1(e, subj)
+    \/ id = "C04-KF2" /\ KF2(e, subj)
+    \/ id = "C04-KF3" /\ KF3(e, subj)
+    \/ id = "C04-KF4" /\ KF4(e, subj)
+    \/ id = "C04-KF5" /\ KF5(e, subj)
+    \/ id = "C04-KF6" /\ KF6(e, subj)
+    \/ id = "C04-KF7" /\ KF7(e, subj)
+    \/ id = "C04-KF8" /\ KF8(e, subj)
 =============================================================================
